@@ -1720,6 +1720,28 @@ def no_send_retry(R, RID, module='session'):
                      n.text()[:50], fi.qual, again[0].text()[:50] if again else ''), func=fi, node=n.ast,
                  construct='sendall retried in %s' % fi.qual)
     need(n_sites >= 2, 'no socket.sendall sites found in module %s' % module)
+    # ... nor one level up: a decorator of the package that wraps a method and can call it more than once repeats
+    # everything the method does before the failing write (compression into the shared context, masking, frame building)
+    for fq, fi in sorted(R.prog.funcs.items()):
+        if fi.module.name.startswith('examples') or not fi.node.decorator_list:
+            continue
+        for d in fi.node.decorator_list:
+            dn = d.func if isinstance(d, ast.Call) else d
+            if not isinstance(dn, ast.Name) or dn.id in ('property', 'classmethod', 'staticmethod'):
+                continue
+            r = R.prog.lookup(fi.module, dn.id)
+            if not r or r[0] != 'func':
+                continue
+            df = r[1] if hasattr(r[1], 'node') else R.prog.funcs.get(r[1])
+            if df is None:
+                continue
+            wrapped = [a.arg for a in df.node.args.args][:1]
+            calls_ = [x for x in ast.walk(df.node) if isinstance(x, ast.Call) and isinstance(x.func, ast.Name)
+                      and wrapped and x.func.id == wrapped[0]]
+            R.ob(RID, '%s is not re-run by its decorator @%s' % (fq, dn.id), len(calls_) <= 1,
+                 '@%s calls the wrapped %s at %d places (a retry): what the method did before the write that failed - the '
+                 'payload compressed into the connection\'s deflate context, a frame partly on the wire - happens twice, the '
+                 'peer sees it once' % (dn.id, fq, len(calls_)), func=fi, node=d, construct='retrying decorator on %s' % fq)
 
 
 def stale_refs(R, RID, modules=None):
